@@ -59,6 +59,9 @@ def drive(mod, prop, tier, seed, budget_s, max_runs, selftest_n, nworkers=None, 
     repeats = {}
     harness_errors = []
     violating = []
+    known_hits = {}
+    known0 = load_known_findings()
+    open_sigs = {k.get('signature'): k for k in known0.get('open', []) if k.get('property') == prop}
     submitted = 0
     stop = False
     with cf.ProcessPoolExecutor(max_workers=nworkers, mp_context=ctx, initializer=_worker_init,
@@ -108,6 +111,10 @@ def drive(mod, prop, tier, seed, budget_s, max_runs, selftest_n, nworkers=None, 
                         else:
                             summaries[s['index']] = s
                             if s.get('violations'):
+                                sig = s['violations'][0].get('signature')
+                                if sig in open_sigs and not survey:
+                                    known_hits.setdefault(sig, []).append(s['index'])   # listed finding: keep exploring
+                                    continue
                                 violating.append(s['index'])
                                 if not survey:
                                     stop = True
@@ -153,8 +160,10 @@ def drive(mod, prop, tier, seed, budget_s, max_runs, selftest_n, nworkers=None, 
     if survey:
         for idx in sorted(violating):
             v = summaries[idx]['violations'][0]
-            log(f"SURVEY run {idx}: {v.get('clause')} {json.dumps(v.get('desc'))[:160]} expected={str(v.get('expected'))[:80]} got={str(v.get('got'))[:80]}")
+            log(f"SURVEY run {idx}: {v.get('signature') or v.get('clause')} {json.dumps(v.get('desc'))[:160]} expected={str(v.get('expected'))[:80]} got={str(v.get('got'))[:80]}")
         log(f'SURVEY: {len(violating)} violating runs of {len(summaries)}')
+        for h in harness_errors[:8]:
+            log('HARNESS-ERROR: ' + h.strip()[-600:])
         return (EXIT_VIOLATION if violating else EXIT_OK), evidence, harness_errors
     if violating:
         idx = min(violating)
@@ -174,9 +183,17 @@ def drive(mod, prop, tier, seed, budget_s, max_runs, selftest_n, nworkers=None, 
             print(f'KNOWN-FINDING: property={prop} {info}', flush=True)
         elif status == 'unreproducible':
             harness_errors.append(f'run {idx} reported a violation that did not reproduce on replay: {info}')
-    for k in known.get('open', []):
-        if k.get('property') == prop and not violating:
+    for sig, idxs in sorted(known_hits.items()):
+        k = open_sigs[sig]
+        idx = min(idxs)
+        path = None
+        try:
+            path = mod.write_replay(summaries[idx], seed, idx, tag='known')
+        except Exception:
             pass
+        print(f"KNOWN-FINDING: property={prop} {k.get('what', sig)} [{len(idxs)} of {len(summaries)} runs; "
+              f"example replay={path}]", flush=True)
+    evidence['coverage']['known_findings_hit'] = {sig: len(i) for sig, i in known_hits.items()}
     if harness_errors and code == EXIT_OK:
         code = EXIT_HARNESS
     if harness_errors:
